@@ -151,6 +151,9 @@ theorem ttl_as_chassis_short (secs : Nat) :
     ttlWire 3 2 secs = tlvWire 3 2 ((n16 secs).toNat / 256) [lo16 (n16 secs)] := by
   simp only [ttlWire, tlvWire, be16_cells, List.cons_append, List.nil_append, hi16, n8]
 
+/-- equal byte counts give equal results -/
+theorem ok_count (X : V) (a b : Nat) (h : a = b) : (Res.ok (X, a) : R (V × Nat)) = .ok (X, b) := by rw [h]
+
 /-- `copy(dst, src)` with `len(src) ≤ len(dst)`: `src` followed by the untouched rest of `dst` -/
 theorem copyInto_prefix (dst src : Bytes) (h : src.length ≤ dst.length) : copyInto dst src = src ++ dst.drop src.length := by
   simp [copyInto, List.take_of_length_le h]
